@@ -1,6 +1,8 @@
 import TsVerif.C09.Props
 import TsVerif.C09.TreeLevel
 import TsVerif.C09.Bom
+import TsVerif.C09.Round11
+import TsVerif.C09.VersionOrder
 #print axioms TsVerif.C09.decode_prefix_stable
 #print axioms TsVerif.C09.decode_local
 #print axioms TsVerif.C09.lookahead_chunk_indep
@@ -20,3 +22,18 @@ import TsVerif.C09.Bom
 #print axioms TsVerif.C09.advance_skip
 #print axioms TsVerif.C09.lexStream_bom
 #print axioms TsVerif.C09.chars_chunk_indep_port_any
+#print axioms TsVerif.C09.utf8_decode_sound
+#print axioms TsVerif.C09.utf8_decode_exact
+#print axioms TsVerif.C09.utf8_decode_injective
+#print axioms TsVerif.C09.VersionOrder.compare_versions_mirror
+#print axioms TsVerif.C09.VersionOrder.compare_versions_mirror_any
+#print axioms TsVerif.C09.VersionOrder.compare_versions_mirror_wrapping
+#print axioms TsVerif.C09.VersionOrder.compareWith_nat
+#print axioms TsVerif.C09.VersionOrder.compareWith_wrapping_eq
+#print axioms TsVerif.C09.VersionOrder.compare_versions_refl
+#print axioms TsVerif.C09.VersionOrder.compare_versions_none_iff
+#print axioms TsVerif.C09.VersionOrder.take_left_sound
+#print axioms TsVerif.C09.VersionOrder.take_right_sound
+#print axioms TsVerif.C09.VersionOrder.prefer_left_sound
+#print axioms TsVerif.C09.VersionOrder.take_not_both
+#print axioms TsVerif.C09.VersionOrder.take_left_gap
